@@ -411,7 +411,10 @@ def _ctor_sentinels():
 
 def obligations(tier):
     obs = [models_ob()]
-    for which, rars in CONSUMERS:
+    consumers = list(CONSUMERS)
+    if tier == "thorough":
+        consumers += [("CubicMeshPDEStatio.inside_batch[dim=2]", (True,)), ("CubicMeshPDEStatio.inside_batch[dim=3]", (False, True))]
+    for which, rars in consumers:
         for rar in rars:
             for cl in CLAUSES:
                 obs.append(consumer_ob(which, rar, cl))
